@@ -4,14 +4,15 @@ from . import world2
 CLASSES = {"C15": ("emg", "fpcal", "fpdata"), "C16": ("data3d", "ft", "emg"),
            "C20": world2.ALL}
 BAD_KINDS = ["len+1", "len-1", "len+2", "len+7", "len-99", "shape:2d", "reassign", "kind:str", "kind:none", "kind:int", "kind:array",
-             "kind:other_item"]
+             "kind:other_item", "kind:sibling_track", "kind:sibling_track2", "kind:same_block", "kind:other_block"]
 
 
 def gen_run(rng, prop, index, tier):
     classes = CLASSES[prop]
     cls = classes[index % len(classes)]
     n = rng.choice((1, 2, 3, 4, 6))
-    cfg = {"cls": cls, "n": n, "poison": rng.choice(("zero", "x42", "xAA", "ramp"))}
+    cfg = {"cls": cls, "n": n, "poison": rng.choice(("zero", "x42", "xAA", "ramp")),
+           "warnings": rng.choice(("default",) * 6 + ("error",))}
     ops = []
     nid = [0]
 
